@@ -23,6 +23,8 @@ Kinds (what the application hands to circuits.web):
   nobody                             response.status=<204,304,101>; return '' (a=even) or an application body (a=odd)
   forbidden notfound none missing    self.forbidden() / self.notfound() / return None / no such path
   raisehttp raise                    raise NotFound()/Forbidden()/... ; raise ValueError
+  yieldraise                         generator handler that yields items and then raises ValueError
+  filterraise                        a 'request' handler in front of the dispatcher raises ValueError (a even) / Forbidden
   redirect raiseredirect             return self.redirect(url, code) / raise Redirect(url)
 """
 import os
@@ -30,6 +32,7 @@ import tempfile
 
 from hypothesis import strategies as st
 
+from circuits import BaseComponent, handler
 from circuits.web import Controller
 from circuits.web.events import stream as stream_event
 from circuits.web.exceptions import Forbidden, Gone, NotFound, Redirect, ServiceUnavailable
@@ -47,17 +50,24 @@ HTTPEXC = [NotFound, Forbidden, Gone, ServiceUnavailable]
 REDIR_CODES = [None, 301, 302, 303, 307]
 BIG = ''.join(chr(65 + (i * 7 + i // 26) % 26) for i in range(100000))
 
+BIG_BYTES = BIG.encode('utf-8')
+
 KINDS = ['str', 'bytes', 'empty', 'big', 'list', 'yields', 'file', 'servefile', 'gen', 'push', 'resp', 'status',
-         'nobody', 'forbidden', 'notfound', 'none', 'missing', 'raisehttp', 'raise', 'redirect', 'raiseredirect']
+         'nobody', 'forbidden', 'notfound', 'none', 'missing', 'raisehttp', 'raise', 'yieldraise', 'filterraise', 'redirect', 'raiseredirect']
 # kinds after which circuits always closes the connection are drawn less often, so that sequences go on
 WEIGHTED = (['str', 'bytes', 'empty', 'list', 'yields', 'file', 'servefile', 'gen', 'push', 'resp', 'status', 'nobody'] * 3
-            + ['big', 'big'] + ['forbidden', 'notfound', 'none', 'missing', 'raisehttp', 'raise', 'redirect', 'raiseredirect'])
+            + ['big', 'big'] + ['forbidden', 'notfound', 'none', 'missing', 'raisehttp', 'raise', 'yieldraise', 'filterraise', 'redirect', 'raiseredirect'])
 
 FX = os.path.join(tempfile.gettempdir(), 'verif-c15-fixtures')
 
 
+_FB = {}
+
+
 def file_bytes(size):
-    return bytes((i * 31 + size) % 251 for i in range(size))
+    if size not in _FB:
+        _FB[size] = bytes((i * 31 + size) % 251 for i in range(size))
+    return _FB[size]
 
 
 def file_path(size):
@@ -109,7 +119,7 @@ class Root(Controller):
         k, a = p['kind'], p['a']
         self._common(p, n)
         res = self.response
-        if k == 'str':
+        if k in ('str', 'filterraise'):   # filterraise: the dispatcher still runs after the failed filter
             return STRS[a % len(STRS)]
         if k == 'bytes':
             return BYTESES[a % len(BYTESES)]
@@ -175,13 +185,44 @@ class Root(Controller):
             res.headers['Content-Type'] = 'text/plain; charset=utf-8'
         for x in items_of(p):
             yield x
+        if p['kind'] == 'yieldraise':
+            raise ValueError('generated failure %d' % n)
+
+
+class Filter(BaseComponent):
+    """A 'request' handler in front of the dispatcher (like a tool/auth component) that fails for kind filterraise."""
+
+    channel = 'web'
+
+    def __init__(self, plan):
+        super().__init__()
+        self.plan = plan
+
+    @handler('request', priority=1.0)
+    def _on_request(self, event, req, res, *a):
+        qs = req.qs or ''
+        if not qs.startswith('i=') or not qs[2:].isdigit():
+            return
+        n = int(qs[2:])
+        p = self.plan.get(n)
+        if p is None or p['kind'] != 'filterraise':
+            return
+        res.headers['X-Req'] = str(n)
+        if p['ctype']:
+            res.headers['Content-Type'] = 'text/plain; charset=utf-8'
+        if p['a'] % 2:
+            raise Forbidden()
+        raise ValueError('generated filter failure %d' % n)
 
 
 def expectation(p, n):
     """What the application produced: (allowed statuses, body bytes or None = framework text, header checks)."""
     k, a = p['kind'], p['a']
-    hdrs = [('x-req', str(n))]
-    if p['ctype'] and k not in ('servefile', 'redirect', 'raiseredirect'):
+    # kinds whose answer is built by the framework from a failure: the application's headers need not survive
+    # (X-Req is then optional, but must be right if present); Content-Type is only asserted for application bodies
+    failure = k in ('raise', 'raisehttp', 'yieldraise', 'filterraise', 'raiseredirect', 'missing')
+    hdrs = [('x-req?' if failure else 'x-req', str(n))]
+    if p['ctype'] and k in ('str', 'bytes', 'empty', 'big', 'list', 'yields', 'file', 'gen', 'push', 'resp', 'status', 'nobody'):
         hdrs.append(('content-type', 'text/plain; charset=utf-8'))
     st_, body = (200,), None
     if k == 'str':
@@ -191,9 +232,13 @@ def expectation(p, n):
     elif k == 'empty':
         body = b''
     elif k == 'big':
-        body = enc(BIG)
+        body = BIG_BYTES
     elif k in ('list', 'yields', 'gen', 'push'):
         body = b''.join(enc(x) for x in items_of(p))
+        if k == 'yields' and not p['items']:
+            # a generator handler that produced nothing: "no result" (404, like return None) and "empty result"
+            # (200, empty body) are both faithful; what is demanded is that the request is answered
+            st_, body = (200, 404), None
     elif k in ('file', 'servefile'):
         body = file_bytes(FILE_SIZES[a % len(FILE_SIZES)])
     elif k == 'resp':
@@ -210,11 +255,13 @@ def expectation(p, n):
     elif k in ('notfound', 'none'):
         st_ = (404,)
     elif k == 'missing':
-        st_, hdrs = (404,), []
+        st_ = (404,)
     elif k == 'raisehttp':
         st_ = (HTTPEXC[a % len(HTTPEXC)].code,)
-    elif k == 'raise':
+    elif k in ('raise', 'yieldraise'):
         st_ = (500,)
+    elif k == 'filterraise':
+        st_ = (403,) if a % 2 else (500,)
     elif k == 'redirect':
         c = REDIR_CODES[a % len(REDIR_CODES)]
         st_ = (c,) if c else (302, 303)
@@ -230,12 +277,12 @@ def normalise(p):
     p = dict(p)
     if p['kind'] == 'push':
         p['method'] = 'GET'          # an application that pushes a body later is only meaningful for a body-carrying method
-        p['items'] = [i for i in p['items'] if ITEMS[i % len(ITEMS)]] or [0]   # pushed chunks are never empty
+        p['items'] = [i for i in p['items'] if ITEMS[i % len(ITEMS)]]   # pushed chunks are never empty
     return p
 
 
 def request_bytes(p, n):
-    path = {'yields': '/y', 'missing': '/nope'}.get(p['kind'], '/r')
+    path = {'yields': '/y', 'yieldraise': '/y', 'missing': '/nope'}.get(p['kind'], '/r')
     s = '%s %s?i=%d HTTP/%s\r\nHost: a\r\n' % (p['method'], path, n, p['ver'])
     if p['conn']:
         s += 'Connection: %s\r\n' % p['conn']
@@ -250,9 +297,9 @@ def wants_close(p):
 class C15(Prop):
     id = 'C15'
     rule = ('sequences of 1-4 requests on one connection of a socket-less circuits.web server; each request draws '
-            'handler result kind (21 kinds: str/bytes/empty/100 kB/list/yielding handler/file sizes 0..10000/serve_file/'
+            'handler result kind (23 kinds: str/bytes/empty/100 kB/list/yielding handler/file sizes 0..10000/serve_file/'
             'generator body/pushed stream/explicit Response/status with body/204,304,101 with and without body/errors/'
-            'raise/redirect) x HTTP 1.0|1.1 x Connection absent|keep-alive|close x GET|HEAD x stream on|off x '
+            'raise, also after yields/redirect) x HTTP 1.0|1.1 x Connection absent|keep-alive|close x GET|HEAD x stream on|off x '
             'app Content-Type; raw bytes per request decoded by http.client; non-trivial = at least 2 requests '
             'answered on the connection, or a response that is chunked, close-delimited, written in more than two '
             'pieces, or body-less by rule (HEAD/1xx/204/304); distinct = distinct spec hash')
@@ -260,7 +307,7 @@ class C15(Prop):
                    'text of framework-generated error/redirect pages is not asserted (only status, framing, app headers)',
                    'the server may always choose to close; only "announced <=> done" and "client asked for close => closed" are asserted',
                    'response.stream=True is only combined with iterator bodies (file, generator, pushed chunks), as in wsgi.py / examples')
-    budget = {'quick': (450, 4), 'thorough': (6000, 16)}
+    budget = {'quick': (600, 4), 'thorough': (6000, 16)}
 
     def setup(self):
         driver.quiet_process()
@@ -277,28 +324,51 @@ class C15(Prop):
             'stream': st.booleans(),
             'ctype': st.booleans(),
         })
-        return st.fixed_dictionaries({'reqs': st.lists(req, min_size=1, max_size=4)})
+        return st.fixed_dictionaries({'reqs': st.lists(req, min_size=1, max_size=4 if tier == 'quick' else 6)})
 
-    def exclude(self, spec, triggers):
-        n = 0
-        reqs = []
-        for p in spec['reqs']:
-            p = dict(p)
-            if 'empty_yielding_handler' in triggers and p['kind'] == 'yields' and not any(items_of(p)):
-                p['items'] = list(p['items']) + [0]
-                n += 1
-            reqs.append(p)
-        return dict(spec, reqs=reqs), n
+    def enumerate(self, tier):
+        """Finite product: every kind (representative parameters) x version x Connection x method x stream,
+        each followed by a plain GET on the same connection (sent if the server keeps the connection)."""
+        seqs = [[], [1], [0, 1, 2], [1, 0], [5, 6, 4]]
+        variants = {
+            'str': [{'a': 0}, {'a': 1}], 'bytes': [{'a': 0}, {'a': 2}], 'empty': [{}], 'big': [{}],
+            'list': [{'items': i} for i in seqs[:4]],
+            'yields': [{'items': i} for i in seqs],
+            'yieldraise': [{'items': []}, {'items': [0]}],
+            'file': [{'a': i, 'stream': b} for i in range(len(FILE_SIZES)) for b in (True, False)],
+            'servefile': [{'a': i, 'stream': b} for i in (0, 3, 5) for b in (True, False)],
+            'gen': [{'items': i, 'stream': b} for i in seqs for b in (True, False)],
+            'push': [{'items': i} for i in ([], [0], [0, 2], [5, 4])],
+            'resp': [{'a': 0}, {'a': 1}, {'a': 2, 'items': [0, 1, 2]}],
+            'status': [{'a': i} for i in range(len(STATUSES))],
+            'nobody': [{'a': i} for i in range(2 * len(NOBODY))],
+            'raisehttp': [{'a': 0}, {'a': 1}],
+            'filterraise': [{'a': 0}, {'a': 1}],
+            'redirect': [{'a': i} for i in range(len(REDIR_CODES))],
+        }
+        base = {'kind': 'str', 'a': 0, 'items': [], 'ver': '1.1', 'conn': None, 'method': 'GET', 'stream': False, 'ctype': False}
+        out = []
+        for k in KINDS:
+            for v in variants.get(k, [{}]):
+                for ver in ('1.1', '1.0'):
+                    for conn in (None, 'keep-alive', 'close'):
+                        for m in ('GET', 'HEAD'):
+                            first = dict(base, kind=k, ver=ver, conn=conn, method=m, **v)
+                            out.append({'reqs': [first, dict(base, a=2, ver=ver, conn=conn)]})
+        return out
 
     # ------------------------------------------------------------------ run
     def execute(self, spec):
+        return self._judge(*self._run(spec))
+
+    def _run(self, spec):
         reqs = [normalise(p) for p in spec['reqs']]
         plan = dict(enumerate(reqs))
         segs = []          # (request number, bytes written for it, number of writes, closed afterwards)
         escaped = None
         with driver.captured_stderr():
             root = Root(plan)
-            rig = Rig(controllers=[root])
+            rig = Rig(controllers=[root], extra=[Filter(plan)])
             try:
                 s = rig.sock(1)
                 wire = rig.wire
@@ -323,7 +393,7 @@ class C15(Prop):
                 stuck = rig.stuck
             finally:
                 rig.cleanup()
-        return self._judge(reqs, segs, order, escaped, stuck)
+        return reqs, segs, order, escaped, stuck
 
     # ------------------------------------------------------------------ oracle
     def _judge(self, reqs, segs, order, escaped, stuck):
@@ -356,7 +426,11 @@ class C15(Prop):
             got = dict(r['headers'])
             names = [k for k, _ in r['headers']]
             for k, v in hdrs:
-                if k == 'location':
+                if k.endswith('?'):
+                    k = k[:-1]
+                    if k in got and (names.count(k) != 1 or got[k] != v):
+                        return bad('header', n, 'header %s is %r, this request is number %r (answer built from another request)' % (k, got[k], v))
+                elif k == 'location':
                     if not got.get(k, '').endswith(v):
                         return bad('header', n, 'Location %r does not point to %r' % (got.get(k), v))
                 elif names.count(k) != 1 or got.get(k) != v:
@@ -371,6 +445,8 @@ class C15(Prop):
             if bodyless:
                 # http.client does not read a body here; `rest` above is what the server sent after the header block
                 pass
+            elif p['kind'] == 'yields' and not p['items'] and r['status'] == 200 and r['body']:
+                return bad('body', n, 'body of %d bytes, application produced nothing' % len(r['body']))
             elif body is not None and r['body'] != body:
                 return bad('body', n, 'body differs: got %d bytes %r..., application produced %d bytes %r...' % (
                     len(r['body']), r['body'][:40], len(body), body[:40]))
